@@ -20,9 +20,12 @@ from pmon import core, monitors, known
 
 TIERS = {
     # tier: (shards, per-shard workload budget in seconds (cap), child timeout)
-    'quick': (2, 100.0, 600),
+    'quick': (3, 100.0, 600),
     'thorough': (14, 420.0, 2400),
 }
+# the last shard(s) of every run use an interpreter started with PYTHONOPTIMIZE=1 (assert statements
+# compiled away): the interpreter's mode is not an input of any property
+OPTIMIZED_SHARDS = {'quick': 1, 'thorough': 2}
 
 
 def load_check(cid):
@@ -76,6 +79,8 @@ def child_main(a):
         probe.attach(ctx, getattr(mod, 'PROBES', 'default'))
         run_cases(mod, ctx)
         ctx.notes['probe_evals'] = dict(probe.evaluations)
+        if not __debug__:
+            ctx.count('cases_under_PYTHONOPTIMIZE', ctx.evaluations)
         from pmon.gen import models as _models
         if _models.AMR_SOURCE[0] != 'not loaded':
             ctx.notes['amr_reference_inventory_from'] = _models.AMR_SOURCE[0]
@@ -195,7 +200,10 @@ def parent_main(a):
         if a.budget:
             cmd += ['--budget', str(a.budget)]
         log = open(os.path.join(outdir, f'shard-{k}.log'), 'w')
-        procs.append((k, subprocess.Popen(cmd, stdout=log, stderr=subprocess.STDOUT, env=env,
+        cenv = env
+        if shards >= 3 and k >= shards - OPTIMIZED_SHARDS.get(a.tier, 0):
+            cenv = dict(env, PYTHONOPTIMIZE='1', PYTHONINTMAXSTRDIGITS='0')   # ... and without the int<->str digit limit
+        procs.append((k, subprocess.Popen(cmd, stdout=log, stderr=subprocess.STDOUT, env=cenv,
                                           cwd=core.ROOT), log))
     inconclusive = []
     deadline = t0 + timeout
